@@ -18,18 +18,50 @@
 #define NHANDLERS 8
 
 typedef struct { char tok[16]; m_mod_t *mod; } handle_t;
-static handle_t H[MAXH]; static int nh;
-static int FDR[MAXF], FDW[MAXF];           /* user descriptor pool: pipes (read end registered) */
-static void *PAY[MAXP]; static int PAYAF[MAXP];
-static const script_t *S; static int cur;  /* script cursor shared by all nesting levels */
-static m_ctx_t *g_ctx;                     /* recorded from pthread_setspecific */
-static int pipe_r[256], pipe_w[256], npipes;
-static int g_errno_leave = -1;
-static int in_blocking_loop, empty_polls, loop_polls;
+typedef struct { m_evt_t *ev[128]; int n; } frame_t;   /* the events of the innermost on_evt invocation (for `stash`) */
 
-/* ---- frames: the events of the innermost on_evt invocation (for `stash`) ---- */
-typedef struct { m_evt_t *ev[128]; int n; } frame_t;
-static frame_t *FR[64]; static int nfr;
+/* All state of one running script.  One instance per process in the ordinary harness; one per script thread in
+ * multi_harness.c (several contexts on several threads, C14).  Helper threads that play "another thread" point at
+ * their parent's instance. */
+typedef struct {
+    handle_t H_[MAXH]; int nh_;
+    int FDR_[MAXF], FDW_[MAXF];            /* user descriptor pool: pipes (read end registered) */
+    void *PAY_[MAXP]; int PAYAF_[MAXP];
+    const script_t *S_; int cur_;          /* script cursor shared by all nesting levels */
+    m_ctx_t *g_ctx_;                       /* recorded from pthread_setspecific */
+    int pipe_r_[256], pipe_w_[256], npipes_;
+    int g_errno_leave_;
+    int g_foreign_;                        /* a foreign-thread call is in progress: results are printed without the dump */
+    int in_blocking_loop_, empty_polls_, loop_polls_;
+    frame_t *FR_[64]; int nfr_;
+    pthread_t g_main_thread_;
+    FILE *out_;                            /* where this script's output lines go */
+    int index_;                            /* position of the script thread (descriptor pool numbers depend on it) */
+} hstate_t;
+static hstate_t G0 = { .g_errno_leave_ = -1 };
+static __thread hstate_t *T = &G0;
+static __thread int t_alien;               /* set in helper threads that play "another thread" (C14) */
+#define H (T->H_)
+#define nh (T->nh_)
+#define FDR (T->FDR_)
+#define FDW (T->FDW_)
+#define PAY (T->PAY_)
+#define PAYAF (T->PAYAF_)
+#define S (T->S_)
+#define cur (T->cur_)
+#define g_ctx (T->g_ctx_)
+#define pipe_r (T->pipe_r_)
+#define pipe_w (T->pipe_w_)
+#define npipes (T->npipes_)
+#define g_errno_leave (T->g_errno_leave_)
+#define g_foreign (T->g_foreign_)
+#define in_blocking_loop (T->in_blocking_loop_)
+#define empty_polls (T->empty_polls_)
+#define loop_polls (T->loop_polls_)
+#define FR (T->FR_)
+#define nfr (T->nfr_)
+#define g_main_thread (T->g_main_thread_)
+#define printf(...) fprintf(T->out_ ? T->out_ : stdout, __VA_ARGS__)
 
 static const char *htok(const m_mod_t *m) {
     for (int i = 0; i < nh; i++) if (H[i].mod == m) return H[i].tok;
@@ -44,16 +76,22 @@ static int pay_index(const void *p) { if (!p) return 0; for (int i = 1; i < MAXP
 
 /* ---- interposition ---- */
 int __real_pthread_setspecific(pthread_key_t k, const void *v);
-int __wrap_pthread_setspecific(pthread_key_t k, const void *v) { g_ctx = (m_ctx_t *)v; return __real_pthread_setspecific(k, v); }
+int __wrap_pthread_setspecific(pthread_key_t k, const void *v) {
+    /* only the script's own thread: helper threads (and the sanitizer runtime starting them) use thread-specific data too */
+    if (pthread_equal(pthread_self(), g_main_thread)) g_ctx = (m_ctx_t *)v;
+    return __real_pthread_setspecific(k, v);
+}
 
 int __real_pipe(int fd[2]);
 int __wrap_pipe(int fd[2]) {
     int r = __real_pipe(fd);
+    if (t_alien) return r;
     if (r == 0 && npipes < 256) { pipe_r[npipes] = fd[0]; pipe_w[npipes] = fd[1]; npipes++; }
     return r;
 }
 int __real_close(int fd);
 int __wrap_close(int fd) {
+    if (t_alien) return __real_close(fd);
     for (int i = 0; i < npipes; i++) {
         if (pipe_r[i] == fd) { printf("close pipe-r\n"); pipe_r[i] = -1; return __real_close(fd); }
         if (pipe_w[i] == fd) { printf("close pipe-w\n"); pipe_w[i] = -1; return __real_close(fd); }
@@ -132,10 +170,12 @@ static void dump(void) {
     }
     printf("\n");
 }
-static void result(long code) { printf("= %ld\n", code); dump(); }
+static void result(long code) { printf("= %ld\n", code); if (!g_foreign) dump(); else g_foreign = 2; }
 
 /* ---- script interpreter ---- */
 static int exec_line(const char *line);   /* returns 1 for `ret 1`, 0 for `ret 0`, -1 otherwise */
+static void foreign_call(int with_ctx, const char *rest);
+static void xtell_call(m_mod_t *m, const char *name, int pill);
 
 /* run nested lines until `ret`; exhausted script == ret true */
 static bool callback_body(void) {
@@ -187,7 +227,7 @@ static m_src_flags prio_flags(const char *f) {
 
 static int exec_line(const char *line) {
     char buf[256]; snprintf(buf, sizeof buf, "%s", line);
-    char *t[8]; int n = split_ws(buf, t, 8);
+    char *t[10] = { 0 }; int n = split_ws(buf, t, 9);
     if (n == 0) return -1;
 #define NEEDH(i, var) m_mod_t *var = hmod(t[i]); if (!var) { printf("bad-handle\n"); return -1; }
     if (!strcmp(t[0], "ret") && n == 2) return atoi(t[1]) != 0;
@@ -268,22 +308,90 @@ static int exec_line(const char *line) {
     if (!strcmp(t[0], "srclen") && n == 2) { NEEDH(1, m); result(m_mod_src_len(m, M_SRC_TYPE_END)); return -1; }
     if (!strcmp(t[0], "make_ready") && n == 2) { int k = (int)idnum(t[1]); if (k >= 0 && k < MAXF && FDW[k] >= 0) { char c = 'x'; if (write(FDW[k], &c, 1) < 0) {} } return -1; }
     if (!strcmp(t[0], "drain") && n == 2) { int k = (int)idnum(t[1]); char b[64]; if (k >= 0 && k < MAXF && FDR[k] >= 0) while (read(FDR[k], b, sizeof b) > 0) {} return -1; }
+    if (!strcmp(t[0], "foreign") && n >= 3) {
+        /* the rest of the line is executed by another thread, which holds its own context ("ctx") or none */
+        const char *rest = strstr(line, t[2]);
+        if (!strcmp(t[2], "foreign") || !strcmp(t[2], "xtell") || !strcmp(t[2], "ret") || !strcmp(t[2], "reg") || !t[3]) { printf("bad-op\n"); return -1; }
+        foreign_call(!strcmp(t[1], "ctx"), rest);
+        return -1;
+    }
+    if (!strcmp(t[0], "xtell") && n == 4) { NEEDH(1, m); xtell_call(m, t[2], atoi(t[3])); return -1; }
     printf("bad-op\n");
     return -1;
 }
 
+/* ---- C14: calls that cross a thread / context boundary ---- */
+typedef struct { int with_ctx; const char *line; hstate_t *parent; } foreign_arg_t;
+static void *foreign_thread(void *p) {
+    foreign_arg_t *a = p;
+    T = a->parent;
+    t_alien = 1;
+    if (a->with_ctx && m_ctx_register("alien", M_CTX_PERSIST, NULL) != 0) { printf("alien-ctx-failed\n"); return NULL; }
+    exec_line(a->line);
+    if (a->with_ctx) m_ctx_deregister();
+    return NULL;
+}
+static void foreign_call(int with_ctx, const char *rest) {
+    foreign_arg_t a = { with_ctx, rest, T };
+    pthread_t th;
+    fflush(T->out_ ? T->out_ : stdout);
+    g_foreign = 1;
+    pthread_create(&th, NULL, foreign_thread, &a);
+    pthread_join(th, NULL);
+    int printed = g_foreign == 2;
+    g_foreign = 0;
+    if (printed) dump();
+}
+
+#include <semaphore.h>
+typedef struct { const char *name; sem_t ready, done; m_mod_t *mod; hstate_t *parent; } alien_arg_t;
+static void *alien_thread(void *p) {
+    alien_arg_t *a = p;
+    T = a->parent;
+    t_alien = 1;
+    m_mod_hook_t hook = { 0 }; hook.on_evt = evt_cb_0;
+    if (m_ctx_register("alien", M_CTX_PERSIST, NULL) == 0 && m_mod_register(a->name, &a->mod, &hook, M_MOD_NAME_DUP, NULL) == 0)
+        m_mod_start(a->mod);
+    sem_post(&a->ready);
+    sem_wait(&a->done);
+    m_mod_t *tmp = a->mod;
+    if (tmp) m_mod_deregister(&tmp);
+    m_ctx_deregister();
+    return NULL;
+}
+static void xtell_call(m_mod_t *m, const char *name, int pill) {
+    alien_arg_t a; memset(&a, 0, sizeof a); a.name = name; a.parent = T;
+    sem_init(&a.ready, 0, 0); sem_init(&a.done, 0, 0);
+    pthread_t th;
+    pthread_create(&th, NULL, alien_thread, &a);
+    sem_wait(&a.ready);
+    long r;
+    static char payload[8];
+    if (!a.mod) r = -99;
+    else if (pill) r = m_mod_ps_poisonpill(m, a.mod);
+    else r = m_mod_ps_tell(m, a.mod, payload, 0);
+    printf("= %ld\n", r);
+    sem_post(&a.done);
+    pthread_join(th, NULL);
+    dump();
+}
+
 static void run_script(const script_t *s) {
-    S = s; cur = 0; nh = 0; nfr = 0; npipes = 0; g_ctx = NULL;
+    S = s; cur = 0; nh = 0; nfr = 0; npipes = 0; g_ctx = NULL; g_main_thread = pthread_self(); g_errno_leave = -1;
+#ifndef HARNESS_MULTI
     m_set_memhook(my_malloc, my_calloc, my_free);
+#endif
     /* user descriptor pool at fixed numbers, so that their order is the order of their ids */
     for (int k = 0; k < MAXF; k++) {
         int p[2];
         if (__real_pipe(p) != 0) { FDR[k] = FDW[k] = -1; continue; }
-        FDR[k] = dup2(p[0], 200 + 2 * k); FDW[k] = dup2(p[1], 201 + 2 * k);
+        FDR[k] = dup2(p[0], 200 + 32 * T->index_ + 2 * k); FDW[k] = dup2(p[1], 201 + 32 * T->index_ + 2 * k);
         __real_close(p[0]); __real_close(p[1]);
         fcntl(FDR[k], F_SETFL, O_NONBLOCK); fcntl(FDW[k], F_SETFL, O_NONBLOCK);
     }
     while (cur < s->nlines) exec_line(s->lines[cur++]);
 }
 
+#ifndef HARNESS_MULTI
 int main(int argc, char **argv) { return harness_main(argc, argv); }
+#endif
